@@ -181,6 +181,15 @@ func (p *vRefParser) unary() (string, bool) {
 		p.pos++
 		x, isNum := p.unary()
 		if isNum && (t.text == "-" || t.text == "+") {
+			if strings.HasPrefix(x, "#f") { // float literal: the sign folds into the literal
+				if t.text == "-" {
+					if strings.HasPrefix(x, "#f-") {
+						return "#f" + x[3:], true
+					}
+					return "#f-" + x[2:], true
+				}
+				return x, true
+			}
 			if t.text == "-" {
 				if strings.HasPrefix(x, "#-") {
 					return "#" + x[2:], true
@@ -250,6 +259,8 @@ func vOperandTok(k int, name string) vTok {
 		return vTok{text: "[" + name + "]", canon: "list(" + name + ")"}
 	case 7:
 		return vTok{text: "\"s\"", canon: "s\"s\""}
+	case 9:
+		return vTok{text: "2.5", canon: "#f2.5", num: true}
 	}
 	return vTok{text: name + "[i][j]", canon: "idx(" + name + ";[i];[j])"}
 }
@@ -280,9 +291,11 @@ func VerifPrecedence() {
 	case 1: // prefix operators around one binary operator, identifiers and number literals
 		toks = append(toks, pre()...)
 		toks = append(toks, pre()...)
-		toks = append(toks, vOperandTok(verifnd.Int(0, 1), "a"), op())
+		k1 := []int{0, 1, 9}[verifnd.Choice(3)]
+		toks = append(toks, vOperandTok(k1, "a"), op())
 		toks = append(toks, pre()...)
-		toks = append(toks, vOperandTok(verifnd.Int(0, 1), "b"))
+		k2 := []int{0, 1, 9}[verifnd.Choice(3)]
+		toks = append(toks, vOperandTok(k2, "b"))
 	case 2: // postfix forms bind tighter than prefix and binary operators
 		toks = append(toks, pre()...)
 		toks = append(toks, vOperandTok(verifnd.Choice(9), "a"), op(), vOperandTok(verifnd.Choice(9), "b"))
